@@ -117,12 +117,14 @@ Theorem C11_comment_after_semi_count_refuted :
   /\ length (split_sigs w_comment_nl_count_a) = 1 /\ length (split_sigs w_comment_nl_count_b) = 2.
 Proof. split; [respell | split; vm]. Qed.
 
-(* ---- the lexer: GO(\s\d+) allows exactly one whitespace character: "GO 2" is one token, "GO  2" three *)
-Theorem C11_go_n_lex_refuted :
+(* ---- the lexer (FIXED in /repo: the rule is now GO(\s+\d+)\b like every other compound keyword; before, "GO 2" was one
+        token and "GO  2" three): the two spellings lex to related streams ------------------------------------- *)
+Example C11_go_n_lex_same :
   lex_ok w_go_n_a = true /\ lex_ok w_go_n_b = true
-  /\ skel0b (lexed w_go_n_a) (lexed w_go_n_b) = false
-  /\ length (sig (lexed w_go_n_a)) = 5 /\ length (sig (lexed w_go_n_b)) = 6.
-Proof. split; [vm|]. split; [vm|]. split; [vm|]. split; vm. Qed.
+  /\ skel0b (lexed w_go_n_a) (lexed w_go_n_b) = true
+  /\ length (sig (lexed w_go_n_a)) = 5 /\ length (sig (lexed w_go_n_b)) = 5
+  /\ split_sigs w_go_n_a = split_sigs w_go_n_b.
+Proof. split; [vm|]. split; [vm|]. split; [vm|]. split; [vm|]. split; vm. Qed.
 
 (* ---- positive examples: the hypotheses of the invariance theorems are satisfiable ---------------- *)
 Example C11_pos_skel :
